@@ -179,7 +179,7 @@ class RecordingProblem(ProxyProblem):
 
 
 class FaultLinearSolverFactory:
-    """Replaces pygradflow.linear_solver.linear_solver.  fail=('factor'|'solve'|'nan', k): the k-th factorisation /
+    """Replaces pygradflow.linear_solver.linear_solver.  fail=('factor'|'solve'|'nan'|'inf', k): the k-th factorisation /
     solve raises LinearSolverError, or the k-th solve silently returns a vector containing NaN."""
 
     def __init__(self, real, fail=None, record=False):
@@ -224,6 +224,13 @@ class _SolverProxy:
             fac.fired.append(("nan", k, current_trial()))
             return np.full(np.shape(rhs), np.nan)
         sol = self._inner.solve(rhs, trans=trans, initial_sol=initial_sol)
+        if fac.fail is not None and fac.fail[0] == "inf" and fac.fail[1] == k:
+            # ... or a solution with a single infinite component (overflow on a nearly singular system)
+            sol = np.array(sol, dtype=float, copy=True)
+            if sol.size:
+                j = (7 * k + 3) % sol.size
+                sol[j] = np.inf if k % 2 == 0 else -np.inf
+                fac.fired.append(("inf", k, current_trial(), j))
         if fac.record:
             fac.log.append((self._mat, np.copy(rhs), np.copy(sol), trans))
         return sol
